@@ -23,7 +23,7 @@ N = 240
 CHUNK = 60  # 4 chunks
 POS = {"first": 5, "middle": 130, "last": 235}
 
-DATA_FAULTS = ["nan_ra", "inf_dec", "nan_weight", "inf_redshift", "pid_-1", "pid_32768", "pid_40000",
+DATA_FAULTS = ["nan_ra", "inf_dec", "nan_weight", "inf_redshift", "pid_-1", "pid_32768", "pid_40000", "pid_nan", "pid_inf",
                "fail_worker", "fail_writer"]
 STRUCT_FAULTS = ["missing_column", "unequal_length", "unequal_length_longer", "no_patch_method", "empty_centre_first", "empty_centre_middle",
                  "empty_centre_last"]
@@ -190,6 +190,10 @@ class C09(Check):
             cols["w"][row] = np.nan
         elif fault == "inf_redshift":
             cols["z"][row] = -np.inf
+        elif fault in ("pid_nan", "pid_inf"):
+            # a float index column with a missing value (what pandas makes of an integer column with a gap)
+            cols["patch"] = cols["patch"].astype("f8")
+            cols["patch"][row] = np.nan if fault == "pid_nan" else np.inf
         elif fault.startswith("pid_"):
             cols["patch"][row] = int(fault.split("_")[1])
         elif fault in ("fail_worker", "fail_writer"):
